@@ -1,3 +1,5 @@
+//go:build !noapi
+
 package main
 
 // In-process driver: calls Goit's exported API (internal/...) on one operation per line and prints one
@@ -23,6 +25,8 @@ import (
 	"github.com/JunNishimura/Goit/internal/sha"
 	"github.com/JunNishimura/Goit/internal/store"
 )
+
+const apiAvailable = true
 
 type apiWorker struct {
 	dir  string // work tree (cwd, HOME)
@@ -267,6 +271,26 @@ func (w *apiWorker) op(f []string) (out string) {
 			return hx(o.Hash) + " get-err"
 		}
 		return hx(o.Hash) + " " + g.Type.String() + " " + strconv.Itoa(len(g.Data)) + " " + hx(sha1sum(g.Data))
+	case "obj.heal":
+		// an empty file under the object's name (what a store that failed after creating the file leaves behind), then
+		// the object is stored: a store that reports success must leave an object that reads back
+		o, err := object.NewObject(kindOf(f[1]), unhx(f[2]))
+		if err != nil {
+			return "err"
+		}
+		p := w.objPath(o.Hash)
+		os.MkdirAll(filepath.Dir(p), 0o777)
+		if err := os.WriteFile(p, nil, 0o644); err != nil {
+			return "err-setup"
+		}
+		if err := o.Write(w.root); err != nil {
+			return "write-error"
+		}
+		g, err := object.GetObject(w.root, o.Hash)
+		if err != nil {
+			return "stored-but-unreadable"
+		}
+		return "ok " + g.Type.String() + " " + hx(g.Data)
 	case "obj.get":
 		o, err := object.GetObject(w.root, unhx(f[1]))
 		if err != nil {
